@@ -24,6 +24,7 @@ THEOREMS = [
     "Gwcs.Api.set_array_then_pixel",
     "Gwcs.Api.set_pixel_then_array",
     "Gwcs.Api.pixel_shape_wrong_len_rejected_unchanged",
+    "Gwcs.Api.array_shape_wrong_len_rejected_unchanged",
     "Gwcs.Api.pixel_shape_len_invariant",
     "Gwcs.TExpr.eval_length",
     "Gwcs.TExpr.ndim_eq_arity",
@@ -69,10 +70,13 @@ def impl(case):
         steps = []
         for op in case["ops"]:
             try:
+                given = None
+                if op["k"] in ("pixel", "array") and op["v"] is not None and op.get("as_array"):
+                    given = np.array(op["v"])          # the shape handed over as an array (data.shape of a memory-mapped file, say)
                 if op["k"] == "pixel":
-                    w.pixel_shape = None if op["v"] is None else tuple(op["v"])
+                    w.pixel_shape = None if op["v"] is None else (given if given is not None else tuple(op["v"]))
                 elif op["k"] == "array":
-                    w.array_shape = None if op["v"] is None else tuple(op["v"])
+                    w.array_shape = None if op["v"] is None else (given if given is not None else tuple(op["v"]))
                 else:
                     b = tuple((float(lo), float(hi)) for lo, hi in op["v"])
                     if op.get("as_dict") and len(b) > 1:
@@ -82,6 +86,12 @@ def impl(case):
                     else:
                         w.bounding_box = b[0] if len(b) == 1 else b
                 res = "ok"
+                if given is not None:
+                    kept = [int(v) for v in w.pixel_shape]
+                    given[0] += 1000                   # the caller goes on using their array
+                    if [int(v) for v in w.pixel_shape] != kept:
+                        res = "aliased"
+                        w.pixel_shape = tuple(kept)
             except Exception as e:
                 res = C.exc_enum(e)
             ps, as_ = w.pixel_shape, w.array_shape
@@ -264,11 +274,13 @@ def _oracle(case, res):
                 out.append(("shape_sync", "after %s: pixel_shape %s but array_shape %s" % (op, ps, as_)))
             if pb != bb:
                 out.append(("pixel_bounds", "after %s: pixel_bounds %s != bounding box %s" % (op, pb, bb)))
-            if op["k"] == "pixel" and op["v"] is not None and len(op["v"]) != case["ndim"]:
+            if op["k"] in ("pixel", "array") and op["v"] is not None and len(op["v"]) != case["ndim"]:
                 if r == "ok":
-                    out.append(("pixel_shape_len", "pixel_shape %s of the wrong length accepted by a %d-D WCS" % (op["v"], case["ndim"])))
+                    out.append(("pixel_shape_len", "%s_shape %s of the wrong length accepted by a %d-D WCS" % (op["k"], op["v"], case["ndim"])))
                 elif [ps, as_] != prev[1:3]:
-                    out.append(("pixel_shape_atomic", "rejected pixel_shape %s changed the shapes %s -> %s" % (op["v"], prev[1:3], [ps, as_])))
+                    out.append(("pixel_shape_atomic", "rejected %s_shape %s changed the shapes %s -> %s" % (op["k"], op["v"], prev[1:3], [ps, as_])))
+            if st[0] == "aliased":
+                out.append(("shape_alias", "the %s_shape given as an array is kept by reference: changing the caller's array afterwards changed the WCS's shape" % op["k"]))
             if r == "ok" and op["k"] == "pixel" and op["v"] is not None and ps != list(op["v"]):
                 out.append(("shape_set", "pixel_shape set to %s reads %s" % (op["v"], ps)))
             if r == "ok" and op["k"] == "array" and op["v"] is not None and as_ != list(op["v"]):
@@ -450,9 +462,7 @@ def gen(rng, tier):
                 ops.append({"k": "bbox", "v": [[-0.5, rng.randint(1, 100) - 0.5] for _i in range(ndim)], "as_dict": rng.random() < 0.4})
             else:
                 ln = ndim if rng.random() < 0.7 else max(1, ndim + rng.choice([-1, 1, 2]))
-                if k == "array" and ln != ndim:
-                    ln = ndim   # array_shape has no length check; its behaviour for wrong lengths is outside the property
-                ops.append({"k": k, "v": None if rng.random() < 0.12 else [rng.randint(1, 500) for _i in range(ln)]})
+                ops.append({"k": k, "v": None if rng.random() < 0.12 else [rng.randint(1, 500) for _i in range(ln)], "as_array": rng.random() < 0.3})
         yield {"kind": "shape", "ndim": ndim, "ops": ops}
     for _ in range(6 if tier == "quick" else 200):
         vals = []
